@@ -95,6 +95,11 @@ SvcChange2(n, k, v, k2, v2) ==
     /\ Has("events") /\ k # k2 /\ UNCHANGED open
     /\ Emit([op |-> "event", n |-> n, ev |-> "change", k |-> k, val |-> v, more |-> (k2 :> v2)], 2, IF v.t = "r" \/ v2.t = "r" THEN 1 ELSE 0)
 
+(* a change event that repeats the value key k already has: nothing changes *)
+SvcChangeNoop(n, k) ==
+    /\ Has("events") /\ UNCHANGED open
+    /\ Emit([op |-> "event", n |-> n, ev |-> "change", k |-> k, noop |-> TRUE], 1, 0)
+
 SvcAdd(n, a, v) ==
     /\ Has("events") /\ UNCHANGED open
     /\ Emit([op |-> "event", n |-> n, ev |-> "add", a |-> a, val |-> v], 2, IF v.t = "r" THEN 1 ELSE 0)
@@ -176,6 +181,7 @@ NextC(cls) ==
       [] cls = "svc" ->
             \/ \E n \in Names, k \in Keys, v \in Vals : SvcChange(n, k, v)
             \/ \E n \in Names, k \in Keys, v \in Vals, k2 \in Keys, v2 \in Vals : SvcChange2(n, k, v, k2, v2)
+            \/ \E n \in Names, k \in Keys : SvcChangeNoop(n, k)
             \/ \E n \in Names, a \in 0..2, v \in Vals \ {[t |-> "x", v |-> ""]} : SvcAdd(n, a, v)
             \/ \E n \in Names, a \in 0..2 : SvcRemove(n, a)
             \/ \E n \in Names : SvcCustom(n)
